@@ -50,7 +50,7 @@ func init() {
 func init() {
 	properties["C01"] = Property{
 		Level: "exploration",
-		Rule:  "one case = (history prefix, event, state kind[, parent]) dispatched through FindRules.Do and compared with the model; histories of 8-30 AddRule/replace/RemRule/AddFact-on-rule-id/RemFact/EnableRule/Clear steps over 4 ids (+2 in a parent); events derived from current and former `when` patterns; non-trivial = the model expects >=1 rule dispatched or the event matches a former pattern; distinct by canonical JSON of (state, history prefix, event)",
+		Rule:  "one case = (history prefix, event, state kind[, parent]) dispatched through FindRules.Do and compared with the model; histories of 8-30 AddRule/replace/RemRule/AddFact-on-rule-id/RemFact/EnableRule/Clear steps over 4 ids (+2 in a parent); events derived from current and former `when` patterns; non-trivial = the model expects >=1 rule dispatched or the event matches a former pattern; distinct by canonical JSON of (state, history prefix, event); every fifth judged event with expected dispatch also runs through ProcessEvent and is submitted once more by a script (Env.ProcessEvent): same rules, same number of action values",
 		Floor: [2]int{500, 5000},
 		Assumptions: []string{"lib/ref.Match + lib/ref.Loc are the specification; rules use the documented {\"when\":{\"pattern\":P}} form; an operation that returns an error leaves its id 'unknown' until rewritten"},
 		Stages: []Stage{{Name: "dispatch", Pkg: "./mon/c01", Procs: 1, Batches: [2]int{8, 16}, TimeoutS: [2]int{600, 3000}}},
@@ -60,7 +60,7 @@ func init() {
 func init() {
 	properties["C02"] = Property{
 		Level: "exploration",
-		Rule:  "one case = one operation of a generated history (AddFact/RemFact/GetFact/SearchFacts over 5 ids, omitted ids and property facts; facts with numbers, booleans, over-long strings, keys ending in '!', a `rule` key) judged on both state implementations against the model; search patterns are derived from stored and formerly stored facts; non-trivial = the expected search result is non-empty, or the id was written before; distinct by canonical JSON of the history prefix; plus (batch 0) ids generated for concurrent id-less adds on 8 locations must be distinct; scalars include look-alikes across JSON types (\"1\"/1, \"true\"/true)",
+		Rule:  "one case = one operation of a generated history (AddFact/RemFact/GetFact/SearchFacts over 5 ids, omitted ids and property facts; facts with numbers, booleans, over-long strings, keys ending in '!', a `rule` key) judged on both state implementations against the model; search patterns are derived from stored and formerly stored facts; non-trivial = the expected search result is non-empty, or the id was written before; distinct by canonical JSON of the history prefix; plus (batch 0) ids generated for concurrent id-less adds on 8 locations must be distinct; scalars include look-alikes across JSON types (\"1\"/1, \"true\"/true); one add in five is written by a script (Env.AddFact) and one search in five is repeated by a script (Env.Search): same ids found",
 		Floor: [2]int{500, 5000},
 		Assumptions: []string{"lib/ref.Match + lib/ref.Loc are the specification; facts hold no variable-looking strings (C13) and no ttl/expires (C07)"},
 		Stages: []Stage{{Name: "search", Pkg: "./mon/c02", Procs: 1, Batches: [2]int{8, 16}, TimeoutS: [2]int{600, 3000}}},
